@@ -7,7 +7,55 @@ package json
 // toErrorViews: one view per error, in order, carrying the error's own line, column, length (property C20/C10).
 //@ func toErrorViews
 //@ requires forall(i, 0, len(errs), typeis(errs[i], *txt.err))
-//@ ensures len(result) == len(errs)
-//@ ensures forall(i, 0, len(errs), result[i].Line == errs[i].(*txt.err).context.(*txt.block).precedingLineCount + errs[i].(*txt.err).line + 1 && result[i].Column == errs[i].(*txt.err).position + 1 && result[i].Length == errs[i].(*txt.err).length)
-//@ loop 1 invariant len(result) == rangeindex + 1
-//@ loop 1 invariant forall(i, 0, rangeindex+1, result[i].Line == errs[i].(*txt.err).context.(*txt.block).precedingLineCount + errs[i].(*txt.err).line + 1 && result[i].Column == errs[i].(*txt.err).position + 1 && result[i].Length == errs[i].(*txt.err).length)
+//@ ensures len(result) == len(errs) && isnil(result) == (len(errs) == 0)
+//@ ensures forall(i, 0, len(errs), result[i].Line == errs[i].(*txt.err).context.(*txt.block).precedingLineCount + errs[i].(*txt.err).line + 1 && result[i].Column == errs[i].(*txt.err).position + 1 && result[i].Length == errs[i].(*txt.err).length && same(result[i].Title, errs[i].(*txt.err).title) && same(result[i].Details, errs[i].(*txt.err).details) && same(result[i].File, errs[i].(*txt.err).origin))
+//@ loop 1 invariant len(result) == rangeindex + 1 && isnil(result) == (rangeindex < 0)
+//@ loop 1 invariant forall(i, 0, rangeindex+1, result[i].Line == errs[i].(*txt.err).context.(*txt.block).precedingLineCount + errs[i].(*txt.err).line + 1 && result[i].Column == errs[i].(*txt.err).position + 1 && result[i].Length == errs[i].(*txt.err).length && same(result[i].Title, errs[i].(*txt.err).title) && same(result[i].Details, errs[i].(*txt.err).details) && same(result[i].File, errs[i].(*txt.err).origin))
+
+// ---------------------------------------------------------------------------------------------
+// Record and entry views (property C20): the minute values are those of the data and add up.
+
+// vtotal(v): the total_mins of an entry view; vkind: the view type matches the entry kind.
+//@ spec vtotal(v any) int = ite(typeis(v, RangeView), v.(RangeView).OpenRangeView.EntryView.TotalMins, ite(typeis(v, OpenRangeView), v.(OpenRangeView).EntryView.TotalMins, v.(EntryView).TotalMins))
+
+// Helpers that only produce text: their results do not take part in the arithmetic relations.
+//@ func toTagViews
+//@ trusted
+//@ ensures true
+
+//@ func toEntryViews
+//@ requires forall(i, 0, len(es), klog.ekind(es[i]) && klog.small(klog.edur(es[i])))
+//@ ensures len(result) == len(es)
+//@ ensures forall(i, 0, len(es), (typeis(result[i], RangeView) || typeis(result[i], OpenRangeView) || typeis(result[i], EntryView)) && vtotal(result[i]) == klog.edur(es[i]))
+//@ ensures forall(i, 0, len(es), typeis(result[i], RangeView) == typeis(es[i].value, *klog.timeRange) && typeis(result[i], OpenRangeView) == typeis(es[i].value, *klog.openRange))
+//@ ensures forall(i, 0, len(es), implies(typeis(result[i], RangeView), result[i].(RangeView).EndMins - result[i].(RangeView).OpenRangeView.StartMins == vtotal(result[i])))
+//@ loop 1 invariant len(views) == rangeindex + 1
+//@ loop 1 invariant forall(i, 0, rangeindex+1, (typeis(views[i], RangeView) || typeis(views[i], OpenRangeView) || typeis(views[i], EntryView)))
+//@ loop 1 invariant forall(i, 0, rangeindex+1, implies(typeis(views[i], RangeView), vtotal(views[i]) == klog.edur(es[i])))
+//@ loop 1 invariant forall(i, 0, rangeindex+1, implies(typeis(views[i], OpenRangeView), vtotal(views[i]) == klog.edur(es[i])))
+//@ loop 1 invariant forall(i, 0, rangeindex+1, implies(typeis(views[i], EntryView), vtotal(views[i]) == klog.edur(es[i])))
+//@ loop 1 invariant forall(i, 0, rangeindex+1, typeis(views[i], RangeView) == typeis(es[i].value, *klog.timeRange) && typeis(views[i], OpenRangeView) == typeis(es[i].value, *klog.openRange))
+//@ loop 1 invariant forall(i, 0, rangeindex+1, implies(typeis(views[i], RangeView), views[i].(RangeView).EndMins - views[i].(RangeView).OpenRangeView.StartMins == vtotal(views[i])))
+
+// toRecordViews: one view per record, in order; total_mins is the record's total (the sum of its entries' durations,
+// which are the entries' total_mins by toEntryViews), should_total_mins its should-total, diff_mins their difference.
+//@ func toRecordViews
+//@ requires forall(i, 0, len(rs), typeis(rs[i], *klog.record) && nonnil(rs[i].(*klog.record).date))
+//@ requires forall(i, 0, len(rs), klog.tiny(service.recShould(rs[i])) && forall(j, 0, len(rs[i].(*klog.record).entries), klog.tiny(klog.edur(rs[i].(*klog.record).entries[j]))) && forall(j, 0, len(rs[i].(*klog.record).entries)+1, klog.tiny(service.entSum(rs[i], j))))
+//@ ensures len(result) == len(rs) && !isnil(result)
+//@ ensures forall(i, 0, len(rs), result[i].TotalMins == old(service.recTotal(rs[i])) && result[i].ShouldTotalMins == old(service.recShould(rs[i])) && result[i].DiffMins == result[i].TotalMins - result[i].ShouldTotalMins)
+//@ ensures forall(i, 0, len(rs), len(result[i].Entries) == old(len(rs[i].(*klog.record).entries)))
+//@ loop 1 invariant len(result) == rangeindex + 1 && !isnil(result)
+//@ loop 1 invariant forall(i, 0, rangeindex+1, result[i].TotalMins == old(service.recTotal(rs[i])))
+//@ loop 1 invariant forall(i, 0, rangeindex+1, result[i].ShouldTotalMins == old(service.recShould(rs[i])))
+//@ loop 1 invariant forall(i, 0, rangeindex+1, result[i].DiffMins == result[i].TotalMins - result[i].ShouldTotalMins)
+//@ loop 1 invariant forall(i, 0, rangeindex+1, len(result[i].Entries) == old(len(rs[i].(*klog.record).entries)))
+
+// The envelope: exactly one of `records` and `errors` is non-null (errs is nil for valid input and non-empty otherwise).
+//@ func ToJson$1
+//@ requires isnil(errs) || len(errs) > 0
+//@ requires forall(i, 0, len(errs), typeis(errs[i], *txt.err))
+//@ requires implies(isnil(errs), forall(i, 0, len(rs), typeis(rs[i], *klog.record) && nonnil(rs[i].(*klog.record).date)))
+//@ requires implies(isnil(errs), forall(i, 0, len(rs), klog.tiny(service.recShould(rs[i])) && forall(j, 0, len(rs[i].(*klog.record).entries), klog.tiny(klog.edur(rs[i].(*klog.record).entries[j]))) && forall(j, 0, len(rs[i].(*klog.record).entries)+1, klog.tiny(service.entSum(rs[i], j)))))
+//@ ensures isnil(result.Records) != isnil(result.Errors)
+//@ ensures isnil(result.Errors) == isnil(errs)
